@@ -5,6 +5,7 @@ import SciVerif.Lemmas.C03e
 import SciVerif.Lemmas.C03i
 import SciVerif.Lemmas.C03m
 import SciVerif.Lemmas.C03p
+import SciVerif.Lemmas.C03q
 import SciVerif.Facts.C03F1
 import SciVerif.Facts.C03F2
 import SciVerif.Facts.C03F3
@@ -351,6 +352,42 @@ theorem C03_render_roundtrip_table (m : ExpMap) (b : BaseUnits) (txt : Str) (hm 
       b2.expression = b.expression ∧ magR b2.factors = magR b.factors :=
   render_roundtrip Gen.tables C03_fact_F1 C03_fact_F2 C03_fact_F3 C03_fact_F4 C03_fact_F7 m b txt hm hk hg hb ht
 
+/-! ## rejection at TEXT level (compound expressions) -/
+
+/-- REJECTION, TEXT LEVEL.  Take ANY text `lead ++ piece ++ post` where `piece` (no `(`, `*`, `/`
+    in it) is an operand of the top level standing before the first parenthesis: `lead` is empty
+    or any parenthesis-free text ending in `*` or `/`, and `post` is empty or begins with `(`, `*`
+    or `/` and is otherwise ARBITRARY (balanced or not).  If the atom parser refuses the stripped
+    operand text, then `UnitSolver(text)`, `BaseUnits(text)` and `Quantity(1,text)` all fail with
+    the same error, which is not the model's fuel error. -/
+theorem C03_reject_operand (T : Tables) (lead piece post : Str) (hl : leadOk lead)
+    (hp : tokPlain piece) (hpost : stopsAt post) (hne : strip piece ≠ [])
+    (hbad : ∃ e, atomParse T (strip piece) = .error e) :
+    ∃ err, unitSolver T (lead ++ piece ++ post) = .error err ∧ err ≠ .fuel ∧
+      baseUnitsOfText T (lead ++ piece ++ post) = .error err ∧
+      quantityOfText T (lead ++ piece ++ post) = .error err := by
+  obtain ⟨err, herr⟩ := unitSolver_bad_operand T lead piece post hl hp hpost hne hbad
+  refine ⟨err, herr, ?_, ?_, ?_⟩
+  · intro h; rw [h] at herr; exact unitSolver_no_fuel T _ herr
+  · unfold baseUnitsOfText; rw [herr]
+  · unfold quantityOfText; rw [herr]
+
+/-- … with the property's three reasons spelled out: an operand whose stripped text is not a number
+    literal, is not a system-unit text and cannot be split as admissible prefix ++ symbol ++
+    exponent characters (unknown symbol, prefix the unit does not admit, foreign characters in
+    front of a valid symbol) makes the whole compound text fail. -/
+theorem C03_reject_operand_unreadable (T : Tables) (hT : noBlankHead T) (lead piece post : Str)
+    (hl : leadOk lead) (hp : tokPlain piece) (hpost : stopsAt post) (hne : strip piece ≠ [])
+    (hnum : numberParts (strip piece) = none)
+    (hsys : ∀ n e, unitParse T (strip piece) ≠ .ok (.sys n, e))
+    (hno : ∀ p b x, strip piece = p ++ b ++ x → ¬ admissible T p b) :
+    ∃ err, unitSolver T (lead ++ piece ++ post) = .error err ∧ err ≠ .fuel ∧
+      baseUnitsOfText T (lead ++ piece ++ post) = .error err ∧
+      quantityOfText T (lead ++ piece ++ post) = .error err :=
+  C03_reject_operand T lead piece post hl hp hpost hne
+    (C03_reject_unreadable T hT (strip piece) hnum hsys hno)
+
+
 /-! ## non-vacuity: concrete instances of the hypotheses and of the conclusions -/
 example : ∃ u ∈ Gen.tables.units, u.sym = ['m'] ∧ ['d','a'] ∈ [] :: admPrefixes Gen.tables u := by
   decide +kernel
@@ -387,5 +424,14 @@ example : (denote Gen.tables (.mul (.atom ['k'] ['g'] []) (.par (.div (.atom [] 
 example : (baseUnitsOfMap Gen.tables [(.std ['k'] ['m'], ⟨1, 2⟩), (.std [] ['s'], ⟨-2, 1⟩)]).map
     (fun b => b.dims.map Frac.value) =
     some [.pair 1 2, .int 0, .pair (-2) 1, .int 0, .int 0, .int 0, .int 0, .int 0] := by decide +kernel
+
+/-- `kg * xkm /(s` : the operand ` xkm ` (foreign character in front of `km`) after `kg *`,
+    followed by an unbalanced rest — hypotheses of `C03_reject_operand` on the shipped table -/
+example : ∃ err, unitSolver Gen.tables ("kg *".toList ++ " xkm ".toList ++ "/(s".toList) = .error err ∧
+    err ≠ .fuel ∧ baseUnitsOfText Gen.tables ("kg *".toList ++ " xkm ".toList ++ "/(s".toList) = .error err ∧
+    quantityOfText Gen.tables ("kg *".toList ++ " xkm ".toList ++ "/(s".toList) = .error err := by
+  refine C03_reject_operand Gen.tables _ _ _ (Or.inr ⟨"kg ".toList, '*', rfl, Or.inl rfl, by decide⟩)
+    (by intro c hc; simp at hc; rcases hc with rfl | rfl | rfl | rfl | rfl <;> decide)
+    (Or.inr ⟨'/', "(s".toList, rfl, Or.inr (Or.inr rfl)⟩) (by decide) ⟨.badPrefix, by decide +kernel⟩
 
 end SciVerif.C03
